@@ -220,13 +220,13 @@ def run(s):
     q = s.tier == 'quick'
     tmpdir = tempfile.mkdtemp(prefix='verif-c18-')
     try:
-        for i in range(300 if q else 12000):
+        for i in range(700 if q else 40000):
             if s.mine(i):
                 sources(s, i, tmpdir)
-        for i in range(40 if q else 1500):
+        for i in range(100 if q else 5000):
             if s.mine(i):
                 readers(s, i, tmpdir)
-        for i in range(100 if q else 4000):
+        for i in range(300 if q else 15000):
             if s.mine(i):
                 listings(s, i)
     finally:
